@@ -14,7 +14,7 @@ LEVEL = "exploration"
 RULE = ("seeded cases: an initialiser (None, empty list/tuple/generator/dict, unsorted, with repeats incl. 1 vs 1.0, "
         "mapping or iterable of pairs) followed by 0-80 operations (set: add/discard/remove/pop/clear/in/len/iter; "
         "map: store/delete/pop/popitem/setdefault/update/get/in/items) over a pool of 22 ints and floats (+-inf, "
-        "-0.0, 2**53 neighbours) and foreign probes ('a', None, 1j, tuple) through `in` and m[k]. Oracle after "
+        "-0.0, 2**53 neighbours), foreign probes ('a', None, 1j, tuple) through `in` and m[k], and NaN probes (in, lookup, get, and the removal operations of an absent value). Oracle after "
         "construction and after every operation: strictly ascending iteration, content/len/membership/lookup equal "
         "to set/dict. distinct_nontrivial = distinct (kind, content) states with >=2 keys.")
 ASSUMPTIONS = [
@@ -191,6 +191,24 @@ def run_case(case, res):
             model.clear()
         elif op in ("in", "len"):
             pass
+        elif op == "probe" and aux % 6 == 5:
+            # NaN: a float that cannot be ordered against the content. It is never stored; probing it, and the
+            # removal operations of an absent value, must behave like set / dict (absent, KeyError, no change)
+            nan = float("nan")
+            desc = "probe nan"
+            checks = [("nan in s", lambda: nan in s, ("ok", False))]
+            if kind == "set":
+                checks += [("discard(nan)", lambda: s.discard(nan), ("ok", None)),
+                           ("remove(nan)", lambda: s.remove(nan), ("exc", "KeyError"))]
+            else:
+                checks += [("m[nan]", lambda: s[nan], ("exc", "KeyError")), ("get(nan)", lambda: s.get(nan, "dflt"), ("ok", "dflt")),
+                           ("pop(nan, d)", lambda: s.pop(nan, "dflt"), ("ok", "dflt")),
+                           ("del m[nan]", lambda: s.__delitem__(nan), ("exc", "KeyError"))]
+            for dsc, fn, want in checks:
+                g = _g(dsc, fn)
+                if g != want:
+                    raise Violation("foreign-probe", f"{dsc} -> {g}, expected {want} (content {sorted(model)!r})", {})
+            res.count("nan_probes")
         elif op == "probe":
             f = FOREIGN[aux % len(FOREIGN)]
             desc = f"probe {f!r}"
